@@ -57,6 +57,7 @@ fn view3<P: Pay>(h: &H3<P>) -> R<View3> {
             ensure!(Arc::as_ptr(a) as *const P as usize == addr, "C11", "ptr", "Arc<[T]>::as_ptr != Deref address");
             counts.push(("slice:Arc::count", Arc::count(a)));
             counts.push(("slice:Arc::strong_count", Arc::strong_count(a)));
+            counts.push(("uniq:Arc<[T]>::is_unique", a.is_unique() as usize));
         }
         H3::Hs(a) => {
             elems = read(&a.slice, "Arc<HeaderSlice<(),[T]>>")?;
@@ -246,6 +247,22 @@ impl<'s, P: Pay + Send + Sync> W<'s, P> {
                 ensure!(h == m.block, "C11,C01", "live", "after {}: {} handle's heap_ptr moved", ctx, kind);
             }
             for (name, c) in &v.counts {
+                if let Some(api) = name.strip_prefix("uniq:") {
+                    // a non-mutating uniqueness verdict, taken at every step: it must agree with the model's owner count
+                    self.st.counts.bump("uniq_obs.passive");
+                    ensure!(
+                        (*c == 1) == (owners == 1),
+                        "C03,C04",
+                        "uniq",
+                        "after {}: {} through a {} handle says unique={} but {} owning handles exist",
+                        ctx,
+                        api,
+                        kind,
+                        *c == 1,
+                        owners
+                    );
+                    continue;
+                }
                 self.st.counts.bump(if self.light { "count_obs.any" } else { "count_obs.slice-world" });
                 if *c != owners {
                     let msg = format!("after {}: {} through a {} handle reports {} but {} owning handles exist", ctx, name, kind, c, owners);
